@@ -105,6 +105,7 @@ func (p *Changes) deleteMod(dir string) {
 }
 
 func (p *Changes) Fetch(fullPath bool) (dir string) {
+	verifPreLock(p)
 	p.mutex.Lock()
 	for len(p.changed) == 0 {
 		p.cond.Wait()
@@ -130,6 +131,7 @@ func (p *Changes) Ignore(name string, isDir bool) bool {
 
 func (p *Changes) FileChanged(name string) {
 	dir := path.Dir(name)
+	verifPreLock(p)
 	p.mutex.Lock()
 	n := len(p.changed)
 	p.changed[dir] = none{}
